@@ -1170,8 +1170,17 @@ func (fr *frame) applyContractSig(st *State, call *ast.CallExpr, name string, si
 	fc.ghostHook(st, fr, call, name, env2.vars)
 	// vacuity guard: the assumed postcondition must not contradict what is known at the call site
 	if !st.dead {
-		fc.obls = append(fc.obls, &Obligation{Name: fmt.Sprintf("%s/%scover.after@%s#%d", fc.name, fr.prefix, name, ord),
-			Hyps: append([]*Term(nil), st.pc...), Goal: TTrue, Kind: "cover", Func: fc.name, Expect: "sat"})
+		site := fmt.Sprintf("%s#%d", name, ord)
+		if fc.contract != nil && declaredDead(fc.contract.Flags["dead"], site) {
+			// `flag dead=Callee#k,...`: a call site the contract declares to be dead code (for instance the error
+			// branch after a callee whose contract says it cannot fail there): instead of the cover check, the
+			// site must be unreachable on every path
+			fc.obls = append(fc.obls, &Obligation{Name: fmt.Sprintf("%s/%sdead@%s", fc.name, fr.prefix, site),
+				Hyps: append([]*Term(nil), st.pc...), Goal: TFalse, Kind: "safe", Func: fc.name})
+		} else {
+			fc.obls = append(fc.obls, &Obligation{Name: fmt.Sprintf("%s/%scover.after@%s#%d", fc.name, fr.prefix, name, ord),
+				Hyps: append([]*Term(nil), st.pc...), Goal: TTrue, Kind: "cover", Func: fc.name, Expect: "sat"})
+		}
 	}
 	return results
 }
@@ -1189,6 +1198,15 @@ func havocLoc(st *State, ml modLoc) {
 	default:
 		st.storeLeaf(ml.class, srt, ml.ref, mkVar(freshName("hv:"+ml.class), srt))
 	}
+}
+
+func declaredDead(list, site string) bool {
+	for _, x := range strings.Split(list, ",") {
+		if strings.TrimSpace(x) == site {
+			return true
+		}
+	}
+	return false
 }
 
 // builtinModel: small set of library functions modelled directly.
